@@ -40,6 +40,7 @@ static void build_file(const scn_t* s) {
         TOTAL_ROWS = f.N; if (FD >= 0) close(FD); FD = memfd_create("c07", 0); if (FD < 0 || write(FD, IMG.p, IMG.n) != (ssize_t)IMG.n) mc_harness_error("memfd"); snprintf(PATH, sizeof PATH, "/proc/self/fd/%d", FD); return; }
     f.ncols = s->shape == 1 ? 2 : 3; f.N = 12; f.nrg = s->shape == 2 ? 2 : 1; f.codec = s->codec; f.crc = true; f.dict_offset_present = true;
     f.col[0].ptype = PT_INT32; f.col[0].opt = 0; f.col[1].ptype = PT_INT64; f.col[1].opt = 1; f.mask[1] = 0x492; f.col[2].ptype = s->shape == 3 ? PT_BYTE_ARRAY : PT_DOUBLE; f.col[2].opt = s->shape == 3; f.mask[2] = 0x0c1;
+    if (s->shape == 3) { f.level_form = REF_H_BP_ONLY; f.index_form = REF_H_MIXED; }      /* shape 3: two nullable columns whose levels are bit-packed groups (shared decoder scratch would be touched by two threads); shapes 0-2: RLE runs */
     for (int c = 0; c < f.ncols; c++) { f.npages[c] = 2; f.page_levels[c][0] = 6; f.page_levels[c][1] = 6; f.enc[c] = (c == 1 && s->shape != 1) ? ENC_RLE_DICT : ENC_PLAIN; }
     ref_buf_free(&IMG); ref_buf_init(&IMG); ref_arena_free(&RA);
     static ref_coldata cols[8]; if (rf_build(&RA, &f, &IMG, NULL, 0, NULL, cols)) mc_harness_error("reference writer failed");
